@@ -1,6 +1,7 @@
 import ShellOp.Proofs.WorkerC03
 import ShellOp.Generated.Facts
 import ShellOp.Model.SetLock
+import ShellOp.Proofs.Routing
 /-!
 # C03 — a queue runs one task at a time, head first; queues do not block each other
 
@@ -390,5 +391,90 @@ example :
 
 example : SingleStarter [.newQueue 1 true, .startRead 0 1, .startSpawn 0 1, .startWrite 0 1, .stop] := by
   intro l hl; simp at hl; rcases hl with rfl | rfl | rfl | rfl | rfl <;> rfl
+
+/-! ### third wave: from the hook configuration to the queue a task is made for
+
+`Model/Routing`: the `queue` key through the converters (`convQueue`), the per-hook schedule links
+(`enable`, a Go map with assignment semantics) and the fan-out of one tick (`handleEvent`). -/
+
+/-- **C03.3, `main` when absent.** The queue a binding is given by the configuration converters: the one
+it names; `main` when it names none; always `main` for a version-0 configuration (no `queue` option). -/
+theorem queue_of_binding (v0 : Bool) (setting : String) :
+    Routing.convQueue v0 setting = if v0 = true ∨ setting = "" then "main" else setting := by
+  have hd : Routing.defaultQueue = "main" := by decide
+  unfold Routing.convQueue
+  rw [hd]
+  cases v0 <;> by_cases h : setting = "" <;> simp [h]
+
+example : Routing.convQueue false "" = "main" ∧ Routing.convQueue false "slow" = "slow" ∧
+    Routing.convQueue true "" = "main" := by decide
+
+/-- **facts (tie T1).** The per-hook schedule links are indexed by the unique entry id the loader makes
+up for every schedule binding (assignment and delete), not by anything two bindings can share. -/
+theorem links_keyed_by_entry_id : Facts.c03_scheduleLinksKeys = ["config.ScheduleEntry.Id"] := by
+  decide
+
+/-- **C03.3, every binding gets its task.** One tick of crontab `c`: whatever order Go walks the links
+map in, the infos the schedule controller hands out — one task each, made `WithQueueName(info.QueueName)`
+— are, up to that order, exactly one per schedule binding of the hook with crontab `c`, each for the
+queue the binding names (`main` when it names none). Bindings sharing a crontab, a queue or a name are
+all served; the only hypothesis is that the loader's entry ids are pairwise distinct (uuids). -/
+theorem schedule_fanout (v0 : Bool) (bs : List Routing.SchedBinding) (c : String)
+    (hid : (bs.map (·.entry)).Nodup) (order : List (String × Routing.Link))
+    (hperm : order.Perm (Routing.enable v0 bs)) :
+    (Routing.handleEvent order c).Perm (Routing.wanted v0 bs c) := by
+  have hkey : Routing.linkKey = fun b => b.entry := by
+    funext b
+    unfold Routing.linkKey
+    rw [if_neg (by decide)]
+  have h1 := Routing.handleEvent_perm _ _ hperm c
+  unfold Routing.enable at h1
+  rw [hkey, Routing.enableBy_eq _ v0 bs hid, Routing.handleEvent_map] at h1
+  have h2 : (fun b : Routing.SchedBinding => (b.name, Routing.convQueue v0 b.queue)) =
+      (fun b => (b.name, if v0 = true ∨ b.queue = "" then "main" else b.queue)) := by
+    funext b; rw [queue_of_binding]
+  rw [h2] at h1
+  exact h1
+
+/-- non-vacuity: two bindings of one hook on the same crontab, one in `q-fast`, one without `queue` -/
+example : Routing.handleEvent (Routing.enable false
+      [⟨"fast", "e1", "* * * * *", "q-fast"⟩, ⟨"slow", "e2", "* * * * *", ""⟩, ⟨"other", "e3", "5 * * * *", "q-fast"⟩])
+      "* * * * *" = [("fast", "q-fast"), ("slow", "main")] := by decide
+
+/-- witness: links indexed by the crontab (two bindings can share it) lose the first binding's task —
+its queue never receives it. This is why `schedule_fanout` needs keys that are unique per binding. -/
+theorem crontab_keyed_links_lose_a_binding :
+    Routing.handleEvent (Routing.enableBy (·.crontab) false
+      [⟨"fast", "e1", "* * * * *", "q-fast"⟩, ⟨"slow", "e2", "* * * * *", "q-slow"⟩]) "* * * * *"
+      = [("slow", "q-slow")] := by decide
+
+/-- **C03.4, facts (tie T1).** No function between the queue worker and the hook process — `taskHandler`,
+`taskHandleHookRun`, `handleRunHook`, `Hook.Run`, `Hook.RateLimitWait`, `Executor.RunAndLogLines` / `Output` —
+takes a lock, and `Hook` has no mutex field: two executions of one hook in two queues share nothing they
+could wait for (the rate limiter aside, which is by design). With `step_agree` (the handler's return is
+an environment step nobody else's step depends on) a hook hanging in one queue cannot hold up its own
+executions in another. -/
+theorem hook_execution_takes_no_lock : Facts.c03_hookExecutionLocks = [] := by decide
+
+/-- **C03.3, from the tick to the queues.** The tasks of one tick (one per info, any ids) placed by one
+pass of the consumer: every existing queue keeps its old tasks and receives, behind them, as many tasks
+as the hook has bindings with that crontab whose `queue` setting (`main` when absent) is that queue's name. -/
+theorem tick_fills_the_configured_queues (v0 : Bool) (bs : List Routing.SchedBinding) (c : String)
+    (hid : (bs.map (·.entry)).Nodup) (order : List (String × Routing.Link))
+    (hperm : order.Perm (Routing.enable v0 bs)) (qid : String → QName) (ids : List Queue.Id)
+    (hids : (Routing.handleEvent order c).length ≤ ids.length)
+    (s : State) (q : QName) (qs : QState) (hq : s.qs q = some qs) :
+    ∃ (qs' : QState) (new : List Queue.Id), (deliverAll s (((Routing.handleEvent order c).map (fun i => qid i.2)).zip ids)).qs q = some qs' ∧
+      qs'.items = qs.items ++ new.map some ∧
+      new.length = ((Routing.wanted v0 bs c).filter (fun w => qid w.2 == q)).length := by
+  obtain ⟨qs', h1, h2, _⟩ := routing (((Routing.handleEvent order c).map (fun i => qid i.2)).zip ids) s q qs hq
+  refine ⟨qs', _, h1, h2, ?_⟩
+  unfold routed
+  rw [List.length_map, Routing.zip_filter_fst_length _ q ids (by simpa using hids)]
+  have hp := schedule_fanout v0 bs c hid order hperm
+  have := ((hp.map (fun i => qid i.2)).filter (· == q)).length_eq
+  rw [this, List.filter_map, List.length_map]
+  rfl
+
 
 end ShellOp.Worker.C03
